@@ -176,7 +176,7 @@ THEOREMS = ["T_WellFormed", "T_Definition (local tensor sum = sum over all contr
 
 
 def run(ctx):
-    res = core.run_tlc("MC_C01", "MC_C01_%s.cfg" % ctx.tier, timeout=3000)
+    res = core.run_model(ctx, "MC_C01", 3000, thorough_seeds=(2, 3))
     core.tlc_must_pass(res, "MC_C01")
     ctx.add_tlc(res, "exhaustive over the shape lattice; every transition emitted as an implementation test")
     ctx.theorems = THEOREMS
